@@ -96,7 +96,7 @@ def build(spec, shared=None):
         c = RC.WindowContainer(spec[1]); built = []
         for x in spec[2]:
             # ["ref", j]: the very same widget object as sibling j (a leaf), added a second time
-            built.append(built[x[1]] if x[0] == "ref" else build(x)); c.add(built[-1])
+            built.append(built[x[1]] if x[0] == "ref" else build(x, shared=built)); c.add(built[-1])
         return c
     if k == "list":
         _, cm, cols, cw, sp, kp, items = spec
@@ -105,7 +105,8 @@ def build(spec, shared=None):
             c.key_pattern = RC.KeyPattern(pattern=kp[0] + "{:d}" + kp[1], offset=kp[2])
         built = []
         for x in items:
-            built.append(built[x[1]] if x[0] == "ref" else build(x)); c.add(built[-1])
+            # ["upref", j]: the very same widget object as item j of the window this container is an item of (one object at two depths)
+            built.append(built[x[1]] if x[0] == "ref" else shared[x[1]] if x[0] == "upref" else build(x)); c.add(built[-1])
         return c
     raise AssertionError(spec)
 
